@@ -361,6 +361,26 @@ pub fn haystacks(p: &Program, rng: &mut Rng, budget: usize, n_long: usize, ascii
             }
         }
     }
+    // far haystacks: a short haystack behind a long run of filler the pattern does not mention, so
+    // that scanning (prefilters work in 4/8/16-byte steps), position arithmetic and offsets are
+    // exercised away from the start of the input; rarely behind more than 64 KiB
+    if n_long > 0 && !v.is_empty() {
+        const LADDER: [usize; 18] = [7, 8, 9, 15, 16, 17, 31, 32, 33, 63, 64, 65, 127, 128, 129, 255, 256, 257];
+        const KILO: [usize; 4] = [1023, 1024, 4095, 4097];
+        const HUGE: [usize; 4] = [65_535, 65_536, 65_537, 70_001];
+        for k in 0..2 {
+            let base = v[rng.below(v.len().min(400))].clone();
+            let n = if k == 1 && rng.chance(1, HUGE_ONE_IN.load(std::sync::atomic::Ordering::Relaxed)) { *rng.pick(&HUGE) } else if k == 1 && rng.chance(1, 8) { *rng.pick(&KILO) } else { *rng.pick(&LADDER) };
+            let candidates: &[char] = if ascii_only { &['#', '~', '%'] } else { &['#', '~', 'ő', '\u{3042}'] };
+            let filler = candidates.iter().copied().find(|c| !p.pattern.contains(&(*c as u32))).unwrap_or('#');
+            let mut s = String::with_capacity(n * filler.len_utf8() + base.len());
+            for _ in 0..n {
+                s.push(filler);
+            }
+            s.push_str(&base);
+            v.push(s);
+        }
+    }
     for k in 0..n_long {
         let len = [6usize, 9, 17, 24, 33, 48, 64][k % 7];
         let mut s = String::new();
@@ -379,4 +399,27 @@ pub fn show_opt(m: &Option<EMatch>) -> String {
         Some(m) => m.show(),
         None => "no match".into(),
     }
+}
+
+/// One program in this many gets a haystack behind more than 64 KiB of filler (the runner lowers
+/// it for the thorough tier).
+pub static HUGE_ONE_IN: std::sync::atomic::AtomicUsize = std::sync::atomic::AtomicUsize::new(3000);
+
+/// Start offsets for long haystacks are thinned: the first few, evenly spaced ones, and the last
+/// 48 (the region of a far haystack where the short haystack sits, plus the beyond-the-end starts).
+pub fn thin_starts(starts: Vec<usize>) -> Vec<usize> {
+    if starts.len() <= 120 {
+        return starts;
+    }
+    let n = starts.len();
+    let mut keep: Vec<usize> = Vec::new();
+    keep.extend_from_slice(&starts[..3]);
+    let (spaced, tail) = if n > 20_000 { (2, 8) } else if n > 600 { (3, 20) } else { (8, 48) };
+    for k in 1..spaced {
+        keep.push(starts[k * n / spaced]);
+    }
+    keep.extend_from_slice(&starts[n - tail..]);
+    keep.sort_unstable();
+    keep.dedup();
+    keep
 }
